@@ -2729,10 +2729,10 @@ template< size_t L> inline
    if (pos1 >= mLength)
       return *this;
    size_t  copy_len = count2;
-   if (pos1 + count1 >= mLength)
+   if (count1 >= mLength - pos1)
    {
       // replace from pos until the end of the string
-      if (pos1 + copy_len > L)
+      if (copy_len > L - pos1)
          copy_len = L - pos1;
       std::memcpy( &mString[ pos1], &str[ pos2], copy_len);
       mLength = pos1 + copy_len;
